@@ -16,7 +16,7 @@ func main() {
 	r := drv.NewRand(cfg.Seed)
 	w := emit.NewWriter(cfg.Out, "C07_spec", 0, cfg.Only)
 	n := cfg.Count(240, 4000)
-	p := c04_hist.Profile{MaxOps: 14, MaxFlows: 2, MaxRefresh: 4, OfflinePct: 92, CodeAttacks: 10, RefreshOff: 12, RefreshAtk: 45, FlowMutation: 8, FaultPct: 6, DropPct: 22, HintPct: 6, ROPct: 8, KeepPct: 35, TwinPct: 4, OmitPct: 25, OtherAuthPct: 25, LoudPct: 50, RevokePct: 35, OddScopePct: 25, ReplacePct: 45, WarmPct: 15, OverlapPct: 25, AudPct: 40}
+	p := c04_hist.Profile{MaxOps: 14, MaxFlows: 2, MaxRefresh: 4, OfflinePct: 92, CodeAttacks: 10, RefreshOff: 12, RefreshAtk: 45, FlowMutation: 8, FaultPct: 6, DropPct: 22, HintPct: 6, ROPct: 8, KeepPct: 35, TwinPct: 4, OmitPct: 25, OtherAuthPct: 25, LoudPct: 50, RevokePct: 35, OddScopePct: 25, ReplacePct: 45, WarmPct: 15, OverlapPct: 25, AudPct: 40, PostPct: 10, ZeroAuthPct: 20, GrantsPct: 20}
 	if !cfg.Quick {
 		p.MaxOps, p.MaxFlows, p.MaxRefresh = 40, 3, 8
 	}
